@@ -647,12 +647,20 @@ class WorkerStuck(BaseException):
 
 
 class SilentSock(L.TSock):
-    """scripted client socket whose peer has stopped reading with the send buffer full: a send-type operation raises
-    BlockingIOError(EAGAIN) in non-blocking mode, socket.timeout under a timeout, and never returns in blocking mode"""
+    """scripted client socket whose peer misbehaves once the server answers.  mode:
+       'no-read'   the peer has stopped reading with the send buffer full: a send-type operation raises BlockingIOError(EAGAIN)
+                   in non-blocking mode, socket.timeout under a timeout, and never returns in blocking mode
+       'stays'     the peer takes the reply, then neither closes nor sends: a recv after the reply never returns in blocking mode
+                   (socket.timeout under a timeout)
+       'trickles'  the peer takes the reply, then sends one byte whenever the server reads again - for ever
+    Before the server has answered anything, an exhausted script reads as end of stream (as with TSock)."""
 
-    def __init__(self, trace, segs):
+    def __init__(self, trace, segs, mode="no-read"):
         L.TSock.__init__(self, trace, segs=segs)
         self.timeout = None
+        self.mode = mode
+        self.replied = False
+        self.late_reads = 0
 
     def setblocking(self, b):
         self.blocking = bool(b)
@@ -665,55 +673,78 @@ class SilentSock(L.TSock):
     def gettimeout(self):
         return self.timeout
 
-    def _full(self, kind, data):
+    def _wait(self, kind, n):
+        """a call that can only return when the peer does something it is not going to do"""
         import errno as _e
         import socket as _s
         if self.timeout is None:
-            self.trace.append(("stuck", kind, len(data)))
+            self.trace.append(("stuck", kind, n))
             raise WorkerStuck(kind)
         if self.timeout == 0.0:
-            self.trace.append((kind, data, 4))
             raise BlockingIOError(_e.EAGAIN, "Resource temporarily unavailable")
-        self.trace.append((kind, data, 4))
         raise _s.timeout("timed out")
 
+    def _out(self, kind, data, do):
+        self.replied = True
+        if self.mode == "no-read":
+            self.trace.append((kind, data, 4))
+            self._wait(kind, len(data))
+        return do()
+
     def sendall(self, data):
-        self._full("sendall", bytes(data))
+        return self._out("sendall", bytes(data), lambda: L.TSock.sendall(self, data))
 
     def send(self, data):
-        self._full("send100", bytes(data))
+        return self._out("send100", bytes(data), lambda: L.TSock.send(self, data))
 
     def sendfile(self, file, offset=0, count=None):
-        self._full("sendfile", b"")
+        return self._out("sendfile", b"", lambda: L.TSock.sendfile(self, file, offset, count))
+
+    def recv(self, n):
+        if self.segs or not self.replied or self.mode == "no-read":
+            return L.TSock.recv(self, n)
+        self.late_reads += 1
+        if self.mode == "trickles":
+            if self.late_reads > 40:
+                # the server has read 40 times since its reply and shows no sign of stopping: the peer decides
+                self.trace.append(("stuck", "recv (the peer sends a byte whenever the server reads)", self.late_reads))
+                raise WorkerStuck("recv")
+            return b"x"
+        self._wait("recv", 0)
 
 
 def silent_client_cases(ctx, runner):
-    """every rejected stream of the corpus, every worker wrapper, the client silent from the moment the server answers: the error
-    reply is best effort, the worker must not wait for this client"""
+    """every rejected stream of the corpus, every worker wrapper, a peer that misbehaves from the moment the server answers (does
+    not read / stays without a word / trickles bytes): the error reply is best effort, the connection is closed, the worker must
+    not wait for this client"""
     nfail = 0
     streams = [(k, v) for k, v in sorted(BAD.items()) if v] + [("pipelined-bad", GET + BAD["badhdr"])]
     for kind in KINDS:
-        for name, data in streams:
-            W = runner.world(kind, "default")
-            W.begin(apps=[dict(OK_APP), dict(OK_APP)])
-            sock = SilentSock(W.trace, [data])
-            esc = W.serve(sock, ("10.0.0.1", 4321))
-            stuck = [e for e in W.trace if e[0] == "stuck"]
-            rejected = any(e[0] == "praise" for e in W.trace)
-            ctx.count_case(("silent", kind, name), True)
-            ctx.hist("silent_client", "rejected" if rejected else "served / incomplete")
-            sock.dispose()
-            runner.drop(kind, "default")          # (a response cut by the silent client may leave the wrapper mid-state)
-            # only the reply to a REJECTED request is judged: a sync worker writing an application's response to a client that
-            # does not read waits for it by design
-            if stuck and rejected and W.app_calls == 0:
-                nfail += 1
-                if len(ctx.violations) < 3:
-                    ctx.violation("worker-stuck [%s worker]: answering the rejected request %r it called %s (%d bytes) in blocking mode on a socket "
-                                  "whose peer does not read: the call never returns, the worker serves nobody else (and is killed by the arbiter's timeout)"
-                                  % (kind, name, stuck[0][1], stuck[0][2]),
-                                  {"kind": "silent-client", "worker": kind, "stream": data.decode("latin-1"), "name": name,
-                                   "failures": [["worker-stuck", stuck[0][1]]]})
+        for variant in ("default", "noka"):
+            for mode in ("no-read", "stays", "trickles"):
+                for name, data in streams:
+                    W = runner.world(kind, variant)
+                    W.begin(apps=[dict(OK_APP), dict(OK_APP)])
+                    sock = SilentSock(W.trace, [data], mode)
+                    esc = W.serve(sock, ("10.0.0.1", 4321))
+                    stuck = [e for e in W.trace if e[0] == "stuck"]
+                    rejected = any(e[0] == "praise" for e in W.trace)
+                    ctx.count_case(("silent", kind, variant, mode, name), True)
+                    ctx.hist("silent_client", "%s / %s" % (mode, "rejected" if rejected else "served or incomplete"))
+                    sock.dispose()
+                    runner.drop(kind, variant)          # (a response cut by the peer may leave the wrapper mid-state)
+                    # only the reply to a REJECTED request is judged: a sync worker writing an application's response to a client
+                    # that does not read waits for it by design
+                    if stuck and rejected and W.app_calls == 0:
+                        nfail += 1
+                        if len(ctx.violations) < 3:
+                            ctx.violation("worker-stuck [%s worker, %s]: answering the rejected request %r to a peer that %s, it called %s in blocking mode "
+                                          "without a timeout / kept reading for as long as the peer wished: the worker serves nobody else (and is "
+                                          "killed by the arbiter's timeout)"
+                                          % (kind, variant, name, {"no-read": "does not read", "stays": "stays connected without a word",
+                                                                   "trickles": "sends a byte whenever the server reads"}[mode], stuck[0][1]),
+                                          {"kind": "silent-client", "worker": kind, "variant": variant, "mode": mode,
+                                           "stream": data.decode("latin-1"), "name": name, "failures": [["worker-stuck", stuck[0][1]]]})
     return nfail
 
 
@@ -807,9 +838,9 @@ def replay(rep):
     if rep.get("kind") == "silent-client":
         runner = Runner()
         try:
-            W = runner.world(rep["worker"], "default")
+            W = runner.world(rep["worker"], rep.get("variant", "default"))
             W.begin(apps=[dict(OK_APP), dict(OK_APP)])
-            sock = SilentSock(W.trace, [rep["stream"].encode("latin-1")])
+            sock = SilentSock(W.trace, [rep["stream"].encode("latin-1")], rep.get("mode", "no-read"))
             esc = W.serve(sock, ("10.0.0.1", 4321))
             for e in W.trace:
                 print(e if len(repr(e)) < 300 else repr(e)[:300] + "...")
